@@ -378,6 +378,7 @@ def _fold(prop, tier, seed, mod, lemmas, results, wall):
         st = main.get("state")
         tot["paths"] += main.get("paths", 0)
         tot["reached"] += main.get("reached", 0) + main.get("reached_native", 0)
+        tot["reached_native_extra"] += max(0, main.get("reached_native", 0) - main.get("dry_runs", 0))
         for k, v in main.get("z3", {}).items():
             tot["z3_" + k] += v
         tot["z3_ms"] += int(1000 * main.get("z3_s", 0.0))
@@ -452,7 +453,8 @@ def _fold(prop, tier, seed, mod, lemmas, results, wall):
         "coverage": {
             # CrossHair paths + native dry runs + programs executed inside cells beyond the first of each path
             "evaluations": int(tot["paths"]) + sum(e.get("native_dry_runs", 0) for e in lemma_evidence)
-                           + sum(max(0, e.get("reached_assertion_paths", 0) - e.get("paths", 0)) for e in lemma_evidence),
+                           + sum(max(0, e.get("reached_assertion_paths", 0) - e.get("paths", 0)) for e in lemma_evidence)
+                           + int(tot["reached_native_extra"]),
             "distinct_nontrivial": int(tot["reached"]),
             "rule": getattr(mod, "RULE", "") + " | evaluations = CrossHair execution paths (each a distinct "
                     "solver-feasible branch history over the symbolic inputs) plus native dry runs plus, for cell lemmas, the "
